@@ -140,7 +140,7 @@ def do_run(ids, tier, props, slot='0'):
             json.dump(m, f, indent=1)
 
 
-def do_runall(ids, nslots, tier, props):
+def do_runall(ids, nslots, tier, props, prefix='q'):
     """Run many seeded ids over nslots parallel private copies."""
     import queue
     import threading
@@ -154,7 +154,7 @@ def do_runall(ids, nslots, tier, props):
                 sid = q.get_nowait()
             except queue.Empty:
                 return
-            cmd = ['python3', os.path.abspath(__file__), 'run', sid, '--slot', f'q{k}', '--tier', tier]
+            cmd = ['python3', os.path.abspath(__file__), 'run', sid, '--slot', f'{prefix}{k}', '--tier', tier]
             if props:
                 cmd += ['--props', ','.join(props)]
             rc, o = sh(cmd, timeout=14400)
@@ -169,7 +169,7 @@ def do_runall(ids, nslots, tier, props):
 def main():
     if sys.argv[1] == 'runall':
         args = sys.argv[2:]
-        nslots, tier, props, ids = 3, 'quick', None, []
+        nslots, tier, props, ids, prefix = 3, 'quick', None, [], 'q'
         i = 0
         while i < len(args):
             if args[i] == '--slots':
@@ -178,9 +178,11 @@ def main():
                 tier = args[i + 1]; i += 2
             elif args[i] == '--props':
                 props = args[i + 1].split(','); i += 2
+            elif args[i] == '--prefix':
+                prefix = args[i + 1]; i += 2
             else:
                 ids.append(args[i]); i += 1
-        do_runall(ids, nslots, tier, props)
+        do_runall(ids, nslots, tier, props, prefix)
         return
     if sys.argv[1] == 'import':
         do_import(sys.argv[2], sys.argv[3], int(sys.argv[4]) if len(sys.argv) > 4 else 0)
